@@ -37,7 +37,8 @@ def attempt(name, sources, workdir, arglists, extra=()):
     for src, args in arglists:
         rc, out = run_driver(exe, args)
         tried.append({'input_source': src, 'args': [str(a) for a in args], 'rc': rc})
-        if rc != 0:
+        # a driver's own crash is not a reproduction: the output must name a violated postcondition or a sanitizer report in /repo code
+        if rc != 0 and ('VIOLATION' in out or (REPO + '/modules') in out or rc == -9):
             return {'reproduced': True, 'input_source': src, 'driver': name + '_replay.cpp', 'args': [str(a) for a in args], 'rc': rc,
                     'output': out, 'build': info}
     return {'reproduced': False, 'tried': tried[:20], 'build': info}
